@@ -452,6 +452,9 @@ def dry_run(pid: str, body: Callable[[Check, Repo], None], repo: Repo):
         code = chk.finish()
         return code, getattr(chk, "fresh", []), None
     except AnalysisError as exc:
+        if chk.split_known()[0]:
+            code = chk.finish()
+            return code, getattr(chk, "fresh", []), None
         return 2, [], str(exc)
     except Exception as exc:
         return 2, [], f"{type(exc).__name__}: {exc}"
@@ -474,6 +477,13 @@ def run_check(pid: str, body: Callable[[Check, Repo], None], tier: str, seed: in
             raise AnalysisError("no obligation was generated (vacuous check)")
         return chk.finish()
     except AnalysisError as exc:
+        # a rule that was already broken by a named construct is a verdict; what could not be analysed afterwards
+        # (typically because of that very defect) is reported next to it and does not turn it into "unknown"
+        if chk.split_known()[0]:
+            chk.note("analysis_error_after_violation", str(exc))
+            if not quiet:
+                print(f"note: analysis stopped early after the violation(s) below: {exc}")
+            return chk.finish()
         if not quiet:
             print(f"ANALYSIS-ERROR property={pid}: {exc}")
         return 2
